@@ -280,6 +280,38 @@ def check(run):
         if not compare_tables(run, R0, safe_power(ps, pos, box, conf, nthread=16, w=W), dict(desc, other_nthread=16), 'nthread'):
             run.nt(('threshold', N, paste, 'nthread'))
 
+    # particle sets of unusual shape: a thin slab (all particles within two cells of x = 0, or of another plane after a translation),
+    # and catalogues of a few dozen weighted particles (fewer than a handful per thread): thread-count and translation invariance
+    for j, (nmesh, N, paste, interlaced) in enumerate([(16, 4000, 'TSC', False), (32, 4000, 'TSC', True), (16, 16, 'TSC', False), (16, 40, 'TSC', False), (8, 100, 'TSC', False), (16, 200, 'CIC', False), (24, 250, 'TSC', False), (16, 20, 'TSC', True)]):
+        box = float(nmesh) * 4.0
+        conf = dict(nmesh=nmesh, paste=paste, compensated=bool(j % 2), interlaced=interlaced, kw=dict(kbins=4, mubins=2, poles=[0, 2]), nthread=1, dtype=np.float32, binning='unusual-shapes')
+        pos, idx = lattice(rng, N, nmesh, box, clustered=False)
+        slab = N >= 1000
+        if slab:
+            idx[:, 0] = idx[:, 0] % 16  # the first two cells along x
+        pos = (idx * (box / nmesh / 8)).astype(np.float32)
+        W = rng.integers(1, 9, N).astype(np.float32)
+        desc = dict(nmesh=nmesh, box=box, N=N, paste=paste, compensated=conf['compensated'], interlaced=interlaced, weighted=True, nthread=1, family='thin slab at x=0' if slab else 'a few dozen weighted particles')
+        run.progress(desc)
+        run.ev()
+        R0 = safe_power(ps, pos, box, conf, w=W)
+        if isinstance(R0, Raised):
+            run.violation('power-run-raises', dict(error=f'{type(R0.e).__name__}: {R0.e}'[:200], **desc))
+            continue
+        for ntc in (2, 4, 16, 7):
+            run.ev()
+            if compare_tables(run, R0, safe_power(ps, pos, box, conf, nthread=ntc, w=W), dict(desc, other_nthread=ntc), 'nthread'):
+                break
+            run.nt(('shape', j, 'nthread', ntc))
+        for shx in (nmesh // 2, 5, nmesh - 1):
+            idx2 = (idx + np.array([shx, 0, 0]) * 8) % (nmesh * 8)
+            pos2 = (idx2 * (box / nmesh / 8)).astype(np.float32)
+            run.ev()
+            if compare_tables(run, R0, safe_power(ps, pos2, box, conf, nthread=[4, 16, 2][shx % 3], w=W), dict(desc, shift_cells=[shx, 0, 0], other_nthread=[4, 16, 2][shx % 3]), 'translation'):
+                break
+            run.nt(('shape', j, 'translation', shx))
+        run.count('unusual_shape_particle_sets')
+
 
 def replay(run, data):
     check(run)
